@@ -180,7 +180,7 @@ impl LogReader {
     {
         // We assume that the caller always provide a valid data entry so we can expand the Mmap
         // and try reading with the `len` and `pos`.
-        if pos >= self.mmap.len() as u64 {
+        if pos + len > self.mmap.len() as u64 {
             self.mmap = memmap2::MmapOptions::new().map(&self.file)?;
         }
         let start = pos as usize;
@@ -200,7 +200,7 @@ impl LogReader {
     {
         // We assume that the caller always provide a valid data entry so we can expand the Mmap
         // and try reading with the `len` and `pos`.
-        if pos >= self.mmap.len() as u64 {
+        if pos + len > self.mmap.len() as u64 {
             self.mmap = memmap2::MmapOptions::new().map(&self.file)?;
         }
         let start = pos as usize;
